@@ -190,7 +190,6 @@ def _z3_once(txt, timeout_ms, seed):
     s.set('timeout', timeout_ms)
     if seed:
         s.set('random_seed', seed)
-        s.set('seed', seed)
     s.from_string(txt)
     r = s.check()
     detail = ''
